@@ -162,4 +162,4 @@ def prop_holders(ctx, case):
 
 PARTS.append(Part("live-holders", prop_holders, enumerate=holders_enumerate))
 MIN_CLASSES["quick"]["real"] = 12
-TIMEOUT = {"quick": 1500, "thorough": 5400}
+TIMEOUT = {"quick": 900, "thorough": 5400}
